@@ -3,6 +3,7 @@ package main
 import (
 	"errors"
 	"fmt"
+	"runtime"
 	"strconv"
 	"strings"
 	"sync"
@@ -31,20 +32,46 @@ type concStore struct {
 	failEvery int64
 }
 
+// yield widens the windows between a store call and what the caller does next (cache update, unlock):
+// the store wrapper is the one place inside the critical sections where the harness gets control.
+func (c *concStore) yield() {
+	for i := 0; i < 3; i++ {
+		runtime.Gosched()
+	}
+}
+
 func (c *concStore) Get(k kvstore.Key) (kvstore.Value, error) {
 	if n := c.gets.Add(1); c.failEvery > 0 && n%c.failEvery == 0 {
 		return nil, errKV
 	}
+	v, err := c.KVStore.Get(k)
+	c.yield()
 
-	return c.KVStore.Get(k)
+	return v, err
+}
+
+func (c *concStore) Has(k kvstore.Key) (bool, error) {
+	h, err := c.KVStore.Has(k)
+	c.yield()
+
+	return h, err
 }
 
 func (c *concStore) Set(k kvstore.Key, v kvstore.Value) error {
 	if len(v) == 8 && v[0]&0x20 != 0 {
 		return errKV
 	}
+	err := c.KVStore.Set(k, v)
+	c.yield()
 
-	return c.KVStore.Set(k, v)
+	return err
+}
+
+func (c *concStore) Delete(k kvstore.Key) error {
+	err := c.KVStore.Delete(k)
+	c.yield()
+
+	return err
 }
 
 type obs struct {
@@ -274,98 +301,130 @@ func runCounter(r *hx.Run, rng *hx.Rng) string {
 // sees must have been written, must not come from the future and must not be stale.
 func runMixed(r *hx.Run, rng *hx.Rng) string {
 	base := mapdb.NewMapDB()
-	cs := &concStore{KVStore: base, failEvery: int64(hx.Pick(rng, []int{0, 6, 11}))}
+	failEvery := int64(hx.Pick(rng, []int{0, 6, 11}))
+	decEvery := int64(hx.Pick(rng, []int{0, 9}))
+	cs := &concStore{KVStore: base, failEvery: failEvery}
 	var decs atomic.Int64
-	tv := newConcTV(cs, &decs, int64(hx.Pick(rng, []int{0, 9})))
+	tv := newConcTV(cs, &decs, decEvery)
 	var clock atomic.Int64
 	var mu sync.Mutex
 	var writes, reads []obs // writes: val 0 = delete
-	writers, readers, per := rng.Range(2, 6), rng.Range(1, 4), rng.Range(5, 30)
-	var wg, rwg sync.WaitGroup
-	var stop atomic.Bool
-	for g := 0; g < writers; g++ {
-		grng, _ := rng.Fork()
-		gid := uint64(g + 1)
-		wg.Add(1)
-		go func() {
-			defer wg.Done()
-			for i := 0; i < per; i++ {
-				uniq := gid<<32 | uint64(i+1)
-				inv := clock.Add(1)
-				var err error
-				val := uniq
-				switch x := grng.Intn(100); {
-				case x < 35:
-					err = tv.Set(uniq)
-				case x < 45:
-					err = tv.Set(uniq | poisonSet)
-				case x < 60:
-					err = tv.Delete()
-					val = 0
-				case x < 85:
-					_, err = tv.Compute(func(uint64, bool) (uint64, error) { return uniq, nil })
-				case x < 90:
-					_, err = tv.Compute(func(uint64, bool) (uint64, error) { return uniq | poisonEnc, nil })
-				case x < 95:
-					_, err = tv.Compute(func(uint64, bool) (uint64, error) { return 0, errFn })
-				default:
-					var cur uint64
-					cur, err = tv.Compute(func(uint64, bool) (uint64, error) { return 0, kvstore.ErrTypedValueNotChanged })
+	var qGet, qRaw []uint64 // at every quiescence: what Get returns / what the store holds (0: absent)
+	phases := rng.Range(8, 30)
+	for phase := 0; phase < phases; phase++ {
+		if rng.Chance(1, 6) {
+			tv = newConcTV(cs, &decs, decEvery) // a fresh object: readers and writers race to fill the cache
+		}
+		writers, readers, per := rng.Range(2, 6), rng.Range(0, 3), rng.Range(1, 4)
+		var wg, rwg sync.WaitGroup
+		var stop atomic.Bool
+		cs.failEvery = failEvery
+		for g := 0; g < writers; g++ {
+			grng, _ := rng.Fork()
+			gid := uint64(g + 1)
+			wg.Add(1)
+			go func() {
+				defer wg.Done()
+				for i := 0; i < per; i++ {
+					uniq := gid<<40 | uint64(phase)<<16 | uint64(i+1)
+					inv := clock.Add(1)
+					var err error
+					val := uniq
+					switch x := grng.Intn(100); {
+					case x < 40:
+						err = tv.Set(uniq)
+					case x < 47:
+						err = tv.Set(uniq | poisonSet)
+					case x < 60:
+						err = tv.Delete()
+						val = 0
+					case x < 85:
+						_, err = tv.Compute(func(uint64, bool) (uint64, error) { return uniq, nil })
+					case x < 90:
+						_, err = tv.Compute(func(uint64, bool) (uint64, error) { return uniq | poisonEnc, nil })
+					case x < 95:
+						_, err = tv.Compute(func(uint64, bool) (uint64, error) { return 0, errFn })
+					default:
+						var cur uint64
+						cur, err = tv.Compute(func(uint64, bool) (uint64, error) { return 0, kvstore.ErrTypedValueNotChanged })
+						ret := clock.Add(1)
+						if err == nil {
+							mu.Lock()
+							reads = append(reads, obs{val: cur, inv: inv, ret: ret, kind: "compute-nc"})
+							mu.Unlock()
+						}
+
+						continue
+					}
 					ret := clock.Add(1)
 					if err == nil {
 						mu.Lock()
-						reads = append(reads, obs{val: cur, inv: inv, ret: ret, kind: "compute-nc"})
+						writes = append(writes, obs{val: val, inv: inv, ret: ret})
 						mu.Unlock()
 					}
+				}
+			}()
+		}
+		for g := 0; g < readers; g++ {
+			rwg.Add(1)
+			go func() {
+				defer rwg.Done()
+				var local []obs
+				for n := 0; !stop.Load() && n < 2000; n++ {
+					inv := clock.Add(1)
+					v, err := tv.Get()
+					ret := clock.Add(1)
+					if n%3 == 0 {
+						tv.Has()
+					}
+					if err != nil && !errors.Is(err, kvstore.ErrKeyNotFound) {
+						continue
+					}
+					if err != nil {
+						v = 0
+					}
+					if len(local) == 0 || local[len(local)-1].val != v {
+						local = append(local, obs{val: v, inv: inv, ret: ret, kind: "get"})
+					}
+				}
+				mu.Lock()
+				reads = append(reads, local...)
+				mu.Unlock()
+			}()
+		}
+		if !waitAll(&wg, 60*time.Second) {
+			r.Fail("watchdog", "mixed writers did not finish within 60s", map[string]string{"oracle": "watchdog", "api": "TypedValue"})
 
-					continue
-				}
-				ret := clock.Add(1)
-				if err == nil {
-					mu.Lock()
-					writes = append(writes, obs{val: val, inv: inv, ret: ret})
-					mu.Unlock()
-				}
-			}
-		}()
-	}
-	for g := 0; g < readers; g++ {
-		rwg.Add(1)
-		go func() {
-			defer rwg.Done()
-			var local []obs
-			for n := 0; !stop.Load() && n < 5000; n++ {
-				inv := clock.Add(1)
-				v, err := tv.Get()
-				ret := clock.Add(1)
-				if err != nil && !errors.Is(err, kvstore.ErrKeyNotFound) {
-					continue
-				}
-				if err != nil {
-					v = 0
-				}
-				if len(local) == 0 || local[len(local)-1].val != v || len(local) < 50 {
-					local = append(local, obs{val: v, inv: inv, ret: ret, kind: "get"})
-				}
-				if h, herr := tv.Has(); herr == nil && n%4 == 0 {
-					_ = h
-				}
-			}
-			mu.Lock()
-			reads = append(reads, local...)
-			mu.Unlock()
-		}()
-	}
-	if !waitAll(&wg, 60*time.Second) {
-		r.Fail("watchdog", "mixed writers did not finish within 60s", map[string]string{"oracle": "watchdog", "api": "TypedValue"})
+			return "conc mixed - - - -"
+		}
+		stop.Store(true)
+		if !waitAll(&rwg, 60*time.Second) {
+			r.Fail("watchdog", "readers did not finish within 60s", map[string]string{"oracle": "watchdog", "api": "TypedValue.Get"})
 
-		return "conc mixed - -"
-	}
-	stop.Store(true)
-	if !waitAll(&rwg, 60*time.Second) {
-		r.Fail("watchdog", "readers did not finish within 60s", map[string]string{"oracle": "watchdog", "api": "TypedValue.Get"})
+			return "conc mixed - - - -"
+		}
+		// quiescence after every phase: cache = store (probe without injected faults)
+		raw, err := base.Get(tvKey)
+		rawHas := err == nil
+		rawVal := uint64(0)
+		if rawHas {
+			rawVal, _ = decU64(raw)
+		}
+		decs.Store(0)
+		cs.gets.Store(0)
+		cs.failEvery = 0
+		gv, gerr := tv.Get()
+		hv, herr := tv.Has()
+		if gerr != nil {
+			gv = 0
+		}
+		qGet, qRaw = append(qGet, gv), append(qRaw, rawVal)
+		if (gerr == nil) != rawHas || (gerr == nil && gv != rawVal) || herr != nil || hv != rawHas {
+			r.Fail("cache-coherent", fmt.Sprintf("at quiescence Get=(%d,%v) Has=(%v,%v) but raw=%s", gv, gerr, hv, herr, showRaw(raw, rawHas)),
+				map[string]string{"oracle": "cache-value", "api": "TypedValue.Get", "part": "concurrent"})
 
-		return "conc mixed - -"
+			break
+		}
 	}
 	// the initial state (absent) counts as a write of "0" that returned before everything
 	all := append([]obs{{val: 0, inv: -1, ret: 0}}, writes...)
@@ -409,21 +468,12 @@ func runMixed(r *hx.Run, rng *hx.Rng) string {
 			break
 		}
 	}
-	// quiescence: cache = store, and the stored value is one that was written
+	// at the end the stored value is one that was written
 	raw, err := base.Get(tvKey)
 	rawHas := err == nil
 	rawVal := uint64(0)
 	if rawHas {
 		rawVal, _ = decU64(raw)
-	}
-	decs.Store(0)
-	cs.gets.Store(0)
-	cs.failEvery = 0
-	gv, gerr := tv.Get()
-	hv, herr := tv.Has()
-	if (gerr == nil) != rawHas || (gerr == nil && gv != rawVal) || herr != nil || hv != rawHas {
-		r.Fail("cache-coherent", fmt.Sprintf("at quiescence Get=(%d,%v) Has=(%v,%v) but raw=%s", gv, gerr, hv, herr, showRaw(raw, rawHas)),
-			map[string]string{"oracle": "cache-value", "api": "TypedValue.Get", "part": "concurrent"})
 	}
 	if _, ok := byVal[rawVal]; !ok {
 		r.Fail("stored-is-last-written", fmt.Sprintf("at quiescence raw=%s which no successful write wrote", showRaw(raw, rawHas)),
@@ -447,7 +497,7 @@ func runMixed(r *hx.Run, rng *hx.Rng) string {
 	}
 	gvs = append(gvs, rawVal)
 
-	return fmt.Sprintf("conc mixed %s %s", csv(wv), csv(gvs))
+	return fmt.Sprintf("conc mixed %s %s %s %s", csv(wv), csv(gvs), csv(qGet), csv(qRaw))
 }
 
 func runConc(r *hx.Run, kind string, rng *hx.Rng) string {
